@@ -150,14 +150,19 @@ def do_insert(prog, H, order, node, rank, tally, fam, ctxt):
         tally.fail(fam, 'insert', 'links', '%s overwrites tree->compare' % what)
     # ordering discipline: a node of the old tree gets a child link rewritten (restructuring, not the linking of the
     # new node) only after its own height was rewritten in this operation, if it is rewritten at all
-    th, tl = {}, {}
+    # "restructured" is a fact about the heap, not about store statements: the first moment at which a child link of the node
+    # holds something else than it held when the operation began (and not the new node).  A store of the value the link already
+    # holds (e.g. `*ref = rebalance_node(an)` when nothing was rotated) changes no state and is no restructuring.
+    th, tl, at_entry = {}, {}, {}
     for i, (n_, fld, old, new, loc) in enumerate(r.machine.writes):
         if n_ == node or n_ == 'T':
             continue
         if fld == 'height':
             th.setdefault(n_, i)
-        elif fld in ('left', 'right') and new != node:
-            tl.setdefault(n_, (i, loc))
+        elif fld in ('left', 'right'):
+            was = at_entry.setdefault((n_, fld), old)
+            if new != node and new != was:
+                tl.setdefault(n_, (i, loc))
     for n_ in tl:
         if n_ in th and tl[n_][0] < th[n_]:
             tally.fail(fam, 'insert', 'discipline', '%s: %s is restructured (%s) before its height is recomputed' % (what, n_, _rel(tl[n_][1])))
